@@ -83,9 +83,23 @@ func genFunction(prog *ssa.Program, cs *Contracts, fn *ssa.Function, fc *FuncCon
 	var params []Val
 	for i, p := range fn.Params {
 		v := c.freshVal(st0, p.Name(), p.Type())
+		if sv, ok := v.(SliceV); ok && fc.NoAlias {
+			// With pairwise distinct backing arrays the position of a slice inside
+			// its backing array is unobservable (Go indexes relative to the slice):
+			// offset 0 without loss of generality. Keeps quantifier patterns free
+			// of arithmetic.
+			sv.Off = intLit(0)
+			v = sv
+		}
 		params = append(params, v)
 		env0[names[i]] = v
 		c.recordParam(p.Name(), v)
+		if sv, ok := v.(SliceV); ok {
+			if c.paramIDs == nil {
+				c.paramIDs = map[string]bool{}
+			}
+			c.paramIDs[sv.ID.S] = true
+		}
 		if iv, ok := v.(IfaceV); ok && isNDIface(p.Type()) && !contains(fc.Nullable, names[i]) {
 			c.emit(fmt.Sprintf("(assert (> %s 0))", iv.Ref.S))
 		}
@@ -386,6 +400,7 @@ func (o *Obligation) queryVariant(dropQuantified bool) string {
 	var b strings.Builder
 	b.WriteString("(set-option :produce-models true)\n")
 	b.WriteString(goDivPrelude)
+	b.WriteString(mulDef)
 	b.WriteString(recipUF)
 	for _, l := range o.ctx.lines[:o.Prefix] {
 		if dropQuantified && strings.HasPrefix(l, "(assert") && (strings.Contains(l, "(forall ") || strings.Contains(l, "(exists ")) {
@@ -433,6 +448,10 @@ func discharge(o *Obligation, outDir string, timeoutS int) *OblResult {
 	}
 	if strings.Contains(q, "(rdiv ") {
 		variants = append(variants, queryVariant{"div", interpretedDiv(q), true})
+	}
+	if !o.ExpectSat && strings.Contains(q, "(rmulx ") {
+		// products as an uninterpreted function: fewer facts, unsat still valid
+		variants = append(variants, queryVariant{"ufmul", strings.Replace(q, mulDef, mulUF, 1), false})
 	}
 	sr := solve(outDir, o.Name, variants, timeoutS)
 	r.Solver, r.Ms, r.Output, r.AllStat = sr.Solver, sr.Ms, sr.Output, sr.All
